@@ -27,8 +27,16 @@ func (c *Ctx) gobDecode(e *ast.CallExpr, rt types.Type) Value {
 		if _, isLit := u.X.(*ast.CompositeLit); !isLit {
 			// &local / &field: the variable becomes arbitrary
 			T := c.typeOf(u.X)
-			x.assign(c, u.X, x.freshValue("decoded", T))
-			c.atCall(e, nil)
+			nv := x.freshValue("decoded", T)
+			x.assign(c, u.X, nv)
+			// the at-call clauses see a pointer to (a copy of) the variable
+			var args []Value
+			if x.isBoxed(T) {
+				args = []Value{c.allocBox(T, nv, c.typeOf(a))}
+			} else {
+				args = []Value{Scalar(Fresh("addr", SRef), c.typeOf(a))}
+			}
+			c.atCall(e, args)
 			return c.arbitrary("gob.Decode", rt)
 		}
 	}
